@@ -5,7 +5,7 @@ Require Import ExtrOcamlBasic.
 From NV Require Import Base.Result Base.Bytes Model.IsoDep.
 Cd "../extract/ml".
 Extraction "c12.ml"
-  Model.IsoDep.exchangex Model.IsoDep.send_apdux Model.IsoDep.run_streamx
+  Model.IsoDep.blk_timeout Model.IsoDep.exchangex Model.IsoDep.send_apdux Model.IsoDep.run_streamx
   Model.IsoDep.exchange Model.IsoDep.send_apdu Model.IsoDep.session Model.IsoDep.picc_absorb
   Model.IsoDep.picc_init Model.IsoDep.set_plan Model.IsoDep.demo_app Model.IsoDep.run_stream
   Model.IsoDep.pcd_start Model.IsoDep.apdu_build Model.IsoDep.apdu_finish
